@@ -122,7 +122,7 @@ func ListTree(root string) string {
 				rec(p, cs)
 			} else {
 				b, _ := os.ReadFile(p)
-				ents = append(ents, "f:"+ps+"="+ContentTok(string(b)))
+				ents = append(ents, "f:"+ps+"="+ContentTokBytes(b))
 			}
 		}
 	}
@@ -223,11 +223,47 @@ func ContentTok(b string) string {
 	return "B" + strconv.Itoa(len(b)) + ":" + hex.EncodeToString(sum[:])
 }
 
+// ContentTokBytes is ContentTok without copying the block.
+func ContentTokBytes(b []byte) string {
+	if len(b) <= 2048 {
+		return hex.EncodeToString(b)
+	}
+	sum := md5.Sum(b)
+	return "B" + strconv.Itoa(len(b)) + ":" + hex.EncodeToString(sum[:])
+}
+
+// BlobSpecBytes expands "len.seed+len.seed+..." into one freshly allocated slice.
+func BlobSpecBytes(spec string) []byte {
+	type part struct{ n, sd int }
+	var parts []part
+	total := 0
+	for _, p := range strings.Split(spec, "+") {
+		f := strings.SplitN(p, ".", 2)
+		if len(f) != 2 {
+			continue
+		}
+		n, _ := strconv.Atoi(f[0])
+		sd, _ := strconv.Atoi(f[1])
+		parts = append(parts, part{n, sd})
+		total += n
+	}
+	out := make([]byte, total)
+	off := 0
+	for _, p := range parts {
+		b := out[off : off+p.n]
+		for i := range b {
+			b[i] = byte(p.sd*31 + i*7 + (i>>8)*13)
+		}
+		off += p.n
+	}
+	return out
+}
+
 // GenBlob: the deterministic blob "len.seed" of the compact new-slice token N:<len.seed>+<len.seed>...
 func GenBlob(n, seed int) string {
 	b := make([]byte, n)
 	for i := range b {
-		b[i] = byte((seed*31 + i*7 + (i>>8)*13) % 251)
+		b[i] = byte(seed*31 + i*7 + (i>>8)*13)
 	}
 	return string(b)
 }
